@@ -6,7 +6,7 @@
     in the composition theorems the handler is ANY script and the chain ANY list.
     [repaired] = the code after the two fix: commits, [pinned] = before (D2, D3). *)
 From WM Require Import Base.Prelude Simple.Model Simple.Monitor Simple.Throttle
-  Simple.ThrottleCtx Simple.Proofs Simple.ThrottleProofs Simple.ThrottleCtxProofs Simple.DelayProofs Simple.ComposeProofs Simple.AcceptProofs.
+  Simple.ThrottleCtx Simple.Proofs Simple.ThrottleProofs Simple.ThrottleCtxProofs Simple.DelayProofs Simple.ComposeProofs Simple.AcceptProofs Simple.Deadline Simple.DeadlineProofs.
 
 (** Timeout: the result is the handler's; during the call ... *)
 Theorem C19_timeout_transparent : forall d (h : handler) w,
@@ -229,7 +229,31 @@ Theorem C19_model_accepted : forall mws s w0,
   accept mws s w0 tr r v = true.
 Proof. exact model_accepted. Qed.
 
+(** a deadline visible during the call, over the clock model of Simple/Deadline.v (any delays before
+    each middleware, timers firing late but never early): a handler blocking on Done() under a
+    chain whose Timeouts are all >= dmin observes it no earlier than dmin after the chain was
+    called and no earlier than the visible Deadline(), which itself is >= call time + dmin; with at
+    least one Timeout it does observe it *)
+Theorem C19_deadline_lower_bound : forall t0 c lat late dmin,
+  (forall d, In d (timeouts c) -> (dmin <= d)%Z) ->
+  (forall e, attempt t0 c lat late = Some e ->
+     (t0 + dmin <= e)%Z /\ exists D, earliest (snd (enter t0 c lat [])) = Some D /\ (D <= e)%Z /\ (t0 + dmin <= D)%Z)
+  /\ (timeouts c <> [] -> exists e, attempt t0 c lat late = Some e).
+Proof. exact deadline_lower_bound. Qed.
+(** under Retry every blocking attempt takes at least dmin of its own: the observed times pass the
+    predicate the check evaluates, and n of them take at least n * dmin *)
+Theorem C19_deadline_attempts : forall dmin c, (forall d, In d (timeouts c) -> (dmin <= d)%Z) ->
+  forall n t0 lats lates waits, block_ok t0 dmin 0 (attempts n t0 c lats lates waits) = true.
+Proof. exact attempts_block_ok. Qed.
+Theorem C19_deadline_attempts_meaning : forall dmin slack, (0 <= slack)%Z -> forall dones prev,
+  block_ok prev dmin slack dones = true ->
+  (prev + Z.of_nat (length dones) * (dmin - slack) <= last dones prev)%Z.
+Proof. exact block_ok_total. Qed.
+
 Print Assumptions C19_timeout_transparent.
+Print Assumptions C19_deadline_lower_bound.
+Print Assumptions C19_deadline_attempts.
+Print Assumptions C19_deadline_attempts_meaning.
 Print Assumptions C19_composes_with_retry_middle.
 Print Assumptions C19_composes_with_retry_middle_same_handler.
 Print Assumptions C19_model_accepted.
